@@ -492,6 +492,21 @@ Proof.
   intros. unfold release. apply in_or_app. left. apply filter_In. split; auto. rewrite H0. reflexivity.
 Qed.
 
+Lemma do_begin_others : forall w c0 y w1 ob c,
+  do_begin w c0 y = (w1, ob) -> c <> c0 ->
+  cl_lookup c (clients w1) = cl_lookup c (clients w) /\
+  (forall srv, In srv (servers w) -> is_held srv = true -> In srv (servers w1)) /\
+  st w1 = st w /\ objs w1 = objs w /\ next_pool w1 = next_pool w /\ paused w1 = paused w.
+Proof.
+  intros w c0 y w1 ob c D Hne. unfold do_begin in D.
+  destruct (plookup (cdb y, cuser y) (pools (st w))) as [[h p]|].
+  - destruct (take_idle p c0 (servers w)) as [[s l']|] eqn:T; inversion D; subst; cbn [clients servers st objs next_pool paused];
+      rewrite cl_lookup_set_other by assumption; repeat split; auto.
+    + intros srv Hin Hh. eapply take_idle_keeps_held; eauto.
+    + intros srv Hin Hh. right. assumption.
+  - inversion D; subst. cbn [clients servers with_clients st objs next_pool paused]. rewrite cl_lookup_remove_other by assumption. repeat split; auto.
+Qed.
+
 (** In-flight work: a step that is not the client's own leaves the client, its clone and the server it holds alone. *)
 Lemma inflight_step : forall w o w' ob c x srv,
   step hashf w o = (w', ob) -> actor o <> Some c ->
@@ -502,7 +517,7 @@ Proof.
   inversion S; subst. clear S. rewrite gc_clients.
   assert (Hheld : is_held srv = true) by (unfold is_held; rewrite Hh; reflexivity).
   assert (G : cl_lookup c (clients w1) = Some x /\ In srv (servers w1)).
-  { destruct o as [fo|c0 d u|c0|c0|c0|c0 ms|k|k]; cbn [step0 actor] in *.
+  { destruct o as [fo|c0 d u|c0|c0|c0|c0 ms|k|k|c0]; cbn [step0 actor] in *.
     - destruct (reload hashf (st w) fo (next_pool w)) as [[[s' r] n'] new]. inversion S0; subst. cbn. auto.
     - assert (c <> c0) by congruence.
       destruct (cl_lookup c0 (clients w)); [inversion S0; subst; auto|].
@@ -513,7 +528,10 @@ Proof.
     - assert (c <> c0) by congruence.
       destruct (cl_lookup c0 (clients w)) as [y|]; [|inversion S0; subst; auto].
       destruct (cheld y); [inversion S0; subst; auto|].
-      destruct (existsb (key_eqb (cdb y, cuser y)) (paused w)); [inversion S0; subst; auto|].
+      destruct (existsb (Nat.eqb c0) (waiting w)); [inversion S0; subst; auto|].
+      destruct (existsb (key_eqb (cdb y, cuser y)) (paused w)).
+      { inversion S0; subst. cbn [clients servers]. split; auto.
+        destruct (plookup (cdb y, cuser y) (pools (st w))) as [[h p]|]; auto. rewrite cl_lookup_set_other by assumption. assumption. }
       destruct (plookup (cdb y, cuser y) (pools (st w))) as [[h p]|].
       + destruct (take_idle p c0 (servers w)) as [[s l']|] eqn:T; inversion S0; subst; cbn [clients servers with_clients];
           rewrite cl_lookup_set_other by assumption; split; auto.
@@ -535,7 +553,13 @@ Proof.
       cbn [clients servers with_clients]. rewrite cl_lookup_set_other by assumption. split; auto.
       apply release_keeps_other; auto. unfold held_by. rewrite Hh. apply Nat.eqb_neq. assumption.
     - destruct (has_pool (st w) k); inversion S0; subst; auto.
-    - destruct (has_pool (st w) k); inversion S0; subst; auto. }
+    - destruct (has_pool (st w) k); inversion S0; subst; auto.
+    - assert (c <> c0) by congruence.
+      destruct (cl_lookup c0 (clients w)) as [y|]; [|inversion S0; subst; auto].
+      destruct (negb (existsb (Nat.eqb c0) (waiting w))); [inversion S0; subst; auto|].
+      destruct (existsb (key_eqb (cdb y, cuser y)) (paused w)); [inversion S0; subst; auto|].
+      destruct (do_begin_others _ _ _ _ _ c S0 H) as [E1 [E2 _]]. cbn [unwait clients servers] in E1, E2.
+      rewrite E1. split; auto. }
   destruct G as [G1 G2]. split; auto. apply gc_keeps_held; assumption.
 Qed.
 
@@ -569,16 +593,17 @@ Qed.
 
 (** client steps never touch CONFIG, POOLS or the registry *)
 Lemma client_step_store : forall w o w' ob, step hashf w o = (w', ob) -> actor o <> None ->
-  st w' = st w /\ objs w' = objs w /\ next_pool w' = next_pool w.
+  st w' = st w /\ objs w' = objs w /\ next_pool w' = next_pool w /\ paused w' = paused w.
 Proof.
   intros w o w' ob S A. unfold step in S. destruct (step0 hashf w o) as [w1 ob1] eqn:S0. inversion S; subst. clear S.
-  rewrite gc_st, gc_objs. change (next_pool (gc w1)) with (next_pool w1).
-  destruct o as [fo|c0 d u|c0|c0|c0|c0 ms|k|k]; cbn [step0 actor] in *; try congruence.
+  rewrite gc_st, gc_objs. change (next_pool (gc w1)) with (next_pool w1). change (paused (gc w1)) with (paused w1).
+  destruct o as [fo|c0 d u|c0|c0|c0|c0 ms|k|k|c0]; cbn [step0 actor] in *; try congruence.
   - destruct (cl_lookup c0 (clients w)); [inversion S0; subst; auto|].
     destruct (plookup (d, u) (pools (st w))) as [[h p]|]; [|inversion S0; subst; auto].
     destruct (existsb (Nat.eqb p) (validated w)); inversion S0; subst; auto.
   - destruct (cl_lookup c0 (clients w)) as [y|]; [|inversion S0; subst; auto].
     destruct (cheld y); [inversion S0; subst; auto|].
+    destruct (existsb (Nat.eqb c0) (waiting w)); [inversion S0; subst; auto|].
     destruct (existsb (key_eqb (cdb y, cuser y)) (paused w)); [inversion S0; subst; auto|].
     destruct (plookup (cdb y, cuser y) (pools (st w))) as [[h p]|]; [|inversion S0; subst; auto].
     destruct (take_idle p c0 (servers w)) as [[s l']|]; inversion S0; subst; auto.
@@ -588,22 +613,26 @@ Proof.
   - destruct (cl_lookup c0 (clients w)) as [y|]; [|inversion S0; subst; auto].
     destruct (cheld y); [|inversion S0; subst; auto].
     destruct (negb (ctmo y =? 0) && (ctmo y <=? ms)); inversion S0; subst; auto.
+  - destruct (cl_lookup c0 (clients w)) as [y|]; [|inversion S0; subst; auto].
+    destruct (negb (existsb (Nat.eqb c0) (waiting w))); [inversion S0; subst; auto|].
+    destruct (existsb (key_eqb (cdb y, cuser y)) (paused w)); [inversion S0; subst; auto|].
+    destruct (do_begin_others _ _ _ _ _ (S c0) S0 (Nat.neq_succ_diag_l c0)) as [_ [_ [E1 [E2 [E3 E4]]]]]. auto.
 Qed.
 
 Lemma client_run_store : forall l w w' obs, run hashf w l = (w', obs) -> Forall (fun o => actor o <> None) l ->
-  st w' = st w /\ objs w' = objs w /\ next_pool w' = next_pool w.
+  st w' = st w /\ objs w' = objs w /\ next_pool w' = next_pool w /\ paused w' = paused w.
 Proof.
   induction l as [|o t IH]; intros w w' obs R F; cbn in R.
   - inversion R; subst. auto.
   - destruct (step hashf w o) as [w1 ob] eqn:S. destruct (run hashf w1 t) as [w2 obs2] eqn:R2. inversion R; subst.
-    inversion F; subst. destruct (client_step_store _ _ _ _ S H1) as [A [B C]].
-    destruct (IH _ _ _ R2 H2) as [A' [B' C']]. repeat split; congruence.
+    inversion F; subst. destruct (client_step_store _ _ _ _ S H1) as [A [B [C D]]].
+    destruct (IH _ _ _ R2 H2) as [A' [B' [C' D']]]. repeat split; congruence.
 Qed.
 
 (** What OBegin does, as a function of POOLS at that moment. *)
 Lemma begin_resolves : forall w c x,
   cl_lookup c (clients w) = Some x -> cheld x = None ->
-  existsb (key_eqb (cdb x, cuser x)) (paused w) = false ->
+  existsb (key_eqb (cdb x, cuser x)) (paused w) = false -> existsb (Nat.eqb c) (waiting w) = false ->
   match begin_txn (st w) (cdb x) (cuser x) with
   | Some p => exists w' s f, step hashf w (OBegin c) = (w', ObBegun p s f) /\
                 cl_lookup c (clients w') = Some {| cdb := cdb x; cuser := cuser x; cclone := p; cheld := Some s; ctmo := cidle (config (st w)) |} /\
@@ -612,7 +641,7 @@ Lemma begin_resolves : forall w c x,
                 st w' = st w /\ (forall y, In y (servers w') -> In y (servers w))
   end.
 Proof.
-  intros w c x L Hh Np. unfold begin_txn, step. cbn [step0]. rewrite L, Hh, Np.
+  intros w c x L Hh Np Nw. unfold begin_txn, step. cbn [step0]. rewrite L, Hh, Nw, Np.
   destruct (plookup (cdb x, cuser x) (pools (st w))) as [[h p]|].
   - destruct (take_idle p c (servers w)) as [[s l']|] eqn:T.
     + eexists _, s, false. split; [reflexivity|]. rewrite gc_clients. cbn [clients]. rewrite cl_lookup_set_same. split; auto.
@@ -667,11 +696,29 @@ Proof.
   - apply IH; auto. intros y Y1 Y2. apply (H y); [right; assumption|assumption].
 Qed.
 
+Lemma do_begin_winv : forall w c0 y w1 ob,
+  store_ok (objs w) (pools (st w)) -> clients_ok (objs w) (clients w) ->
+  (exists pd, In (cclone y, ((cdb y, cuser y), pd)) (objs w)) ->
+  do_begin w c0 y = (w1, ob) ->
+  st w1 = st w /\ objs w1 = objs w /\ next_pool w1 = next_pool w /\ clients_ok (objs w) (clients w1).
+Proof.
+  intros w c0 y w1 ob SO CO _ D. unfold do_begin in D.
+  destruct (plookup (cdb y, cuser y) (pools (st w))) as [[h p]|] eqn:Lp.
+  - assert (G : forall s t, clients_ok (objs w) (cl_set c0 {| cdb := cdb y; cuser := cuser y; cclone := p; cheld := s; ctmo := t |} (clients w))).
+    { intros s t c x L. destruct (Nat.eq_dec c c0) as [->|Hne].
+      - rewrite cl_lookup_set_same in L. inversion L; subst. cbn. destruct (SO _ _ _ Lp) as [pd [A _]]. eauto.
+      - rewrite cl_lookup_set_other in L by assumption. eauto. }
+    destruct (take_idle p c0 (servers w)) as [[s l']|]; inversion D; subst; cbn; repeat split; auto.
+  - inversion D; subst. cbn. repeat split; auto. intros c x L. destruct (Nat.eq_dec c c0) as [->|Hne].
+    + rewrite cl_lookup_remove_same in L. discriminate.
+    + rewrite cl_lookup_remove_other in L by assumption. eauto.
+Qed.
+
 Lemma winv_step : forall w o w' ob, winv w -> step hashf w o = (w', ob) -> winv w'.
 Proof.
   intros w o w' ob [SO [[OK1 OK2] CO]] S. unfold step in S. destruct (step0 hashf w o) as [w1 ob1] eqn:S0.
   inversion S; subst. clear S. unfold winv. rewrite gc_st, gc_objs, gc_clients. change (next_pool (gc w1)) with (next_pool w1).
-  destruct o as [fo|c0 d u|c0|c0|c0|c0 ms|k|k]; cbn [step0] in S0.
+  destruct o as [fo|c0 d u|c0|c0|c0|c0 ms|k|k|c0]; cbn [step0] in S0.
   - destruct (reload hashf (st w) fo (next_pool w)) as [[[s' r] n'] new] eqn:R. inversion S0; subst. cbn.
     destruct (reload_fresh _ _ _ _ _ _ _ R) as [F1 [F2 [F3 F4]]]. repeat split.
     + intros k h pid L. destruct (F4 _ _ _ L) as [X|[pd [X Y]]].
@@ -691,21 +738,14 @@ Proof.
     destruct (existsb (Nat.eqb p) (validated w)); inversion S0; subst; cbn; repeat split; auto.
   - destruct (cl_lookup c0 (clients w)) as [y|] eqn:L0; [|inversion S0; subst; repeat split; auto].
     destruct (cheld y); [inversion S0; subst; repeat split; auto|].
-    destruct (existsb (key_eqb (cdb y, cuser y)) (paused w)); [inversion S0; subst; repeat split; auto|].
-    destruct (plookup (cdb y, cuser y) (pools (st w))) as [[h p]|] eqn:Lp.
-    + assert (G : clients_ok (objs w) (cl_set c0 {| cdb := cdb y; cuser := cuser y; cclone := p; cheld := None; ctmo := 0 |} (clients w)) ->
-                  forall s, clients_ok (objs w) (cl_set c0 {| cdb := cdb y; cuser := cuser y; cclone := p; cheld := Some s; ctmo := cidle (config (st w)) |} (clients w))).
-      { intros G s c x L. destruct (Nat.eq_dec c c0) as [->|Hne].
-        - rewrite cl_lookup_set_same in L. inversion L; subst. cbn. destruct (SO _ _ _ Lp) as [pd [A _]]. eauto.
-        - rewrite cl_lookup_set_other in L by assumption. eauto. }
-      assert (G0 : clients_ok (objs w) (cl_set c0 {| cdb := cdb y; cuser := cuser y; cclone := p; cheld := None; ctmo := 0 |} (clients w))).
-      { intros c x L. destruct (Nat.eq_dec c c0) as [->|Hne].
-        - rewrite cl_lookup_set_same in L. inversion L; subst. cbn. destruct (SO _ _ _ Lp) as [pd [A _]]. eauto.
-        - rewrite cl_lookup_set_other in L by assumption. eauto. }
-      destruct (take_idle p c0 (servers w)) as [[s l']|]; inversion S0; subst; cbn; repeat split; auto.
-    + inversion S0; subst. cbn. repeat split; auto. intros c x L. destruct (Nat.eq_dec c c0) as [->|Hne].
-      * rewrite cl_lookup_remove_same in L. discriminate.
-      * rewrite cl_lookup_remove_other in L by assumption. eauto.
+    destruct (existsb (Nat.eqb c0) (waiting w)); [inversion S0; subst; repeat split; auto|].
+    destruct (existsb (key_eqb (cdb y, cuser y)) (paused w)).
+    { inversion S0; subst. cbn. repeat split; auto.
+      destruct (plookup (cdb y, cuser y) (pools (st w))) as [[h p]|] eqn:Lp; auto.
+      intros c x L. destruct (Nat.eq_dec c c0) as [->|Hne].
+      - rewrite cl_lookup_set_same in L. inversion L; subst. cbn. destruct (SO _ _ _ Lp) as [pd [A _]]. eauto.
+      - rewrite cl_lookup_set_other in L by assumption. eauto. }
+    destruct (do_begin_winv w c0 y _ _ SO CO (CO _ _ L0) S0) as [E1 [E2 [E3 E4]]]. rewrite E1, E2, E3. repeat split; auto.
   - destruct (cl_lookup c0 (clients w)) as [y|] eqn:L0; [|inversion S0; subst; repeat split; auto].
     destruct (cheld y); inversion S0; subst; repeat split; auto. cbn.
     intros c x L. destruct (Nat.eq_dec c c0) as [->|Hne].
@@ -723,6 +763,10 @@ Proof.
     + rewrite cl_lookup_set_other in L by assumption. eauto.
   - destruct (has_pool (st w) k); inversion S0; subst; repeat split; auto.
   - destruct (has_pool (st w) k); inversion S0; subst; repeat split; auto.
+  - destruct (cl_lookup c0 (clients w)) as [y|] eqn:L0; [|inversion S0; subst; repeat split; auto].
+    destruct (negb (existsb (Nat.eqb c0) (waiting w))); [inversion S0; subst; repeat split; auto|].
+    destruct (existsb (key_eqb (cdb y, cuser y)) (paused w)); [inversion S0; subst; repeat split; auto|].
+    destruct (do_begin_winv (unwait w c0) _ _ _ _ SO CO (CO _ _ L0) S0) as [E1 [E2 [E3 E4]]]. rewrite E1, E2, E3. repeat split; auto.
 Qed.
 
 Lemma winv_empty : winv empty_world.
@@ -760,8 +804,12 @@ Proof.
   { unfold step in S. cbn [step0] in S. rewrite L in S. destruct (cheld x); [inversion S|reflexivity]. }
   assert (Np : existsb (key_eqb (cdb x, cuser x)) (paused w) = false).
   { unfold step in S. cbn [step0] in S. rewrite L, Hh in S.
+    destruct (existsb (Nat.eqb c) (waiting w)); [inversion S|].
     destruct (existsb (key_eqb (cdb x, cuser x)) (paused w)); [inversion S|reflexivity]. }
-  pose proof (begin_resolves w c x L Hh Np) as B. unfold begin_txn in B.
+  assert (Nw : existsb (Nat.eqb c) (waiting w) = false).
+  { unfold step in S. cbn [step0] in S. rewrite L, Hh in S.
+    destruct (existsb (Nat.eqb c) (waiting w)); [inversion S|reflexivity]. }
+  pose proof (begin_resolves w c x L Hh Np Nw) as B. unfold begin_txn in B.
   destruct (plookup (cdb x, cuser x) (pools (st w))) as [[h p0]|] eqn:Lp.
   - destruct B as [w2 [s2 [f2 [B1 [B2 B3]]]]]. rewrite S in B1. inversion B1; subst.
     destruct (SO _ _ _ Lp) as [pd [A _]]. split; [eauto|]. split; auto.
@@ -780,7 +828,7 @@ Proof.
   intros w o w' ob I A W K S. destruct (actor o) eqn:Ac.
   - assert (actor o <> None) by congruence. destruct (client_step_store _ _ _ _ S H) as [E1 [E2 _]].
     unfold agree. rewrite E1, E2. exact A.
-  - destruct o as [fo| | | | | |k|k]; cbn in Ac; try discriminate.
+  - destruct o as [fo| | | | | |k|k|]; cbn in Ac; try discriminate.
     2,3: (unfold step in S; cbn [step0] in S; destruct (has_pool (st w) k); inversion S; subst; exact A).
     unfold step in S. cbn [step0] in S.
     destruct (reload hashf (st w) fo (next_pool w)) as [[[s' r] n'] new] eqn:R. inversion S; subst. clear S.
@@ -815,7 +863,7 @@ Proof. intros d u. cbn. reflexivity. Qed.
 (** ------------------------------------------------------------------ world-level forms *)
 
 Lemma world_eta : forall w, {| st := st w; objs := objs w; next_pool := next_pool w; clients := clients w;
-                               servers := servers w; next_srv := next_srv w; validated := validated w; paused := paused w |} = w.
+                               servers := servers w; next_srv := next_srv w; validated := validated w; waiting := waiting w; paused := paused w |} = w.
 Proof. destruct w; reflexivity. Qed.
 
 Lemma invalid_noop_world : forall w fo, settled w -> invalid fo -> step hashf w (OReload fo) = (w, ObReload RErr).
@@ -862,28 +910,11 @@ Qed.
 Lemma pinv_step : forall w o w' ob, pinv w -> step hashf w o = (w', ob) -> pinv w'.
 Proof.
   intros w o w' ob P S. destruct (actor o) eqn:Ac.
-  - assert (Hc : actor o <> None) by congruence. destruct (client_step_store _ _ _ _ S Hc) as [E _].
-    assert (Ep : paused w' = paused w).
-    { unfold step in S. destruct (step0 hashf w o) as [w1 ob1] eqn:S0. inversion S; subst. change (paused (gc w1)) with (paused w1).
-      destruct o as [fo|c0 d u|c0|c0|c0|c0 ms|k|k]; cbn [step0 actor] in *; try discriminate.
-      - destruct (cl_lookup c0 (clients w)); [inversion S0; subst; auto|].
-        destruct (plookup (d, u) (pools (st w))) as [[h p]|]; [|inversion S0; subst; auto].
-        destruct (existsb (Nat.eqb p) (validated w)); inversion S0; subst; auto.
-      - destruct (cl_lookup c0 (clients w)) as [y|]; [|inversion S0; subst; auto].
-        destruct (cheld y); [inversion S0; subst; auto|].
-        destruct (existsb (key_eqb (cdb y, cuser y)) (paused w)); [inversion S0; subst; auto|].
-        destruct (plookup (cdb y, cuser y) (pools (st w))) as [[h p]|]; [|inversion S0; subst; auto].
-        destruct (take_idle p c0 (servers w)) as [[s l']|]; inversion S0; subst; auto.
-      - destruct (cl_lookup c0 (clients w)) as [y|]; [|inversion S0; subst; auto].
-        destruct (cheld y); inversion S0; subst; auto.
-      - destruct (cl_lookup c0 (clients w)) as [y|]; inversion S0; subst; auto.
-      - destruct (cl_lookup c0 (clients w)) as [y|]; [|inversion S0; subst; auto].
-        destruct (cheld y); [|inversion S0; subst; auto].
-        destruct (negb (ctmo y =? 0) && (ctmo y <=? ms)); inversion S0; subst; auto. }
+  - assert (Hc : actor o <> None) by congruence. destruct (client_step_store _ _ _ _ S Hc) as [E [_ [_ Ep]]].
     intros k Hk. rewrite Ep in Hk. unfold has_pool. rewrite E. apply P. assumption.
   - unfold step in S. destruct (step0 hashf w o) as [w1 ob1] eqn:S0. inversion S; subst. clear S.
     intros k Hk. change (paused (gc w1)) with (paused w1) in Hk. rewrite gc_st.
-    destruct o as [fo| | | | | |k0|k0]; cbn [step0 actor] in *; try discriminate.
+    destruct o as [fo| | | | | |k0|k0|]; cbn [step0 actor] in *; try discriminate.
     + destruct (reload hashf (st w) fo (next_pool w)) as [[[s' r] n'] new] eqn:R. inversion S0; subst. cbn [st paused] in *.
       destruct r as [|[|]|].
       * unfold has_pool. rewrite (reload_keeps_pools _ _ _ _ _ _ _ R) by congruence. apply P. assumption.
@@ -914,21 +945,105 @@ Proof.
   rewrite (P _ Hin) in H. discriminate.
 Qed.
 
+(** ------------------------------------------------------------------ transactions held by PAUSE *)
+
+Definition is_reload (o : op) : bool := match o with OReload _ => true | _ => false end.
+Definition is_waiting (w : world) (c : cid) : bool := existsb (Nat.eqb c) (waiting w).
+(** how the next transaction of a client starts: a client parked in wait_paused() goes on, any other begins *)
+Definition start_op (w : world) (c : cid) : op := if is_waiting w c then OWake c else OBegin c.
+
+Lemma quiet_step_store : forall w o w' ob, step hashf w o = (w', ob) -> is_reload o = false ->
+  st w' = st w /\ objs w' = objs w /\ next_pool w' = next_pool w.
+Proof.
+  intros w o w' ob S Q. destruct (actor o) eqn:Ac.
+  - assert (Hc : actor o <> None) by congruence. destruct (client_step_store _ _ _ _ S Hc) as [A [B [C _]]]. auto.
+  - unfold step in S. destruct (step0 hashf w o) as [w1 ob1] eqn:S0. inversion S; subst. clear S.
+    rewrite gc_st, gc_objs. change (next_pool (gc w1)) with (next_pool w1).
+    destruct o as [fo| | | | | |k|k|]; cbn in Ac, Q; try discriminate; cbn [step0] in S0;
+      destruct (has_pool (st w) k); inversion S0; subst; auto.
+Qed.
+
+Lemma quiet_run_store : forall l w w' obs, run hashf w l = (w', obs) -> Forall (fun o => is_reload o = false) l ->
+  st w' = st w /\ objs w' = objs w /\ next_pool w' = next_pool w.
+Proof.
+  induction l as [|o t IH]; intros w w' obs R F; cbn in R.
+  - inversion R; subst. auto.
+  - destruct (step hashf w o) as [w1 ob] eqn:S. destruct (run hashf w1 t) as [w2 obs2] eqn:R2. inversion R; subst.
+    inversion F; subst. destruct (quiet_step_store _ _ _ _ S H1) as [A [B C]].
+    destruct (IH _ _ _ R2 H2) as [A' [B' C']]. repeat split; congruence.
+Qed.
+
+Lemma do_begin_resolves : forall w c x,
+  match begin_txn (st w) (cdb x) (cuser x) with
+  | Some p => exists w' s f, do_begin w c x = (w', ObBegun p s f) /\
+                cl_lookup c (clients w') = Some {| cdb := cdb x; cuser := cuser x; cclone := p; cheld := Some s; ctmo := cidle (config (st w)) |} /\
+                In {| sid := s; spool := p; sholder := Some c |} (servers w')
+  | None => exists w', do_begin w c x = (w', ObNoPool) /\ cl_lookup c (clients w') = None /\
+                st w' = st w /\ servers w' = servers w
+  end.
+Proof.
+  intros w c x. unfold begin_txn, do_begin.
+  destruct (plookup (cdb x, cuser x) (pools (st w))) as [[h p]|].
+  - destruct (take_idle p c (servers w)) as [[s l']|] eqn:T.
+    + eexists _, s, false. split; [reflexivity|]. cbn [clients servers]. rewrite cl_lookup_set_same. split; auto.
+      eapply take_idle_result; eauto.
+    + eexists _, (next_srv w), true. split; [reflexivity|]. cbn [clients servers]. rewrite cl_lookup_set_same. split; auto.
+      left. reflexivity.
+  - eexists. split; [reflexivity|]. cbn [clients st servers with_clients]. rewrite cl_lookup_remove_same. auto.
+Qed.
+
+(** A transaction that was held by PAUSE reads POOLS and CONFIG when it actually starts ([OWake]), not when its
+    first statement arrived: the outcome is a function of the store at that moment. *)
+Lemma wake_resolves : forall w c x,
+  cl_lookup c (clients w) = Some x -> is_waiting w c = true ->
+  existsb (key_eqb (cdb x, cuser x)) (paused w) = false ->
+  match begin_txn (st w) (cdb x) (cuser x) with
+  | Some p => exists w' s f, step hashf w (OWake c) = (w', ObBegun p s f) /\
+                cl_lookup c (clients w') = Some {| cdb := cdb x; cuser := cuser x; cclone := p; cheld := Some s; ctmo := cidle (config (st w)) |} /\
+                In {| sid := s; spool := p; sholder := Some c |} (servers w')
+  | None => exists w', step hashf w (OWake c) = (w', ObNoPool) /\ cl_lookup c (clients w') = None /\
+                st w' = st w /\ (forall y, In y (servers w') -> In y (servers w))
+  end.
+Proof.
+  intros w c x L Wt Np. unfold step. cbn [step0]. unfold is_waiting in Wt. rewrite L, Wt, Np. cbn [negb].
+  pose proof (do_begin_resolves (unwait w c) c x) as D. cbn [unwait st] in D.
+  destruct (begin_txn (st w) (cdb x) (cuser x)).
+  - destruct D as [w' [s [f [D1 [D2 D3]]]]]. rewrite D1. eexists _, s, f. split; [reflexivity|].
+    rewrite gc_clients. split; auto. apply gc_keeps_held; [assumption|reflexivity].
+  - destruct D as [w' [D1 [D2 [D3 D4]]]]. rewrite D1. eexists. split; [reflexivity|]. rewrite gc_clients, gc_st.
+    split; auto. split; auto. intros y Hy. apply gc_sub in Hy. rewrite D4 in Hy. exact Hy.
+Qed.
+
+Lemma start_resolves : forall w c x,
+  cl_lookup c (clients w) = Some x -> cheld x = None ->
+  existsb (key_eqb (cdb x, cuser x)) (paused w) = false ->
+  match begin_txn (st w) (cdb x) (cuser x) with
+  | Some p => exists w' s f, step hashf w (start_op w c) = (w', ObBegun p s f) /\
+                cl_lookup c (clients w') = Some {| cdb := cdb x; cuser := cuser x; cclone := p; cheld := Some s; ctmo := cidle (config (st w)) |} /\
+                In {| sid := s; spool := p; sholder := Some c |} (servers w')
+  | None => exists w', step hashf w (start_op w c) = (w', ObNoPool) /\ cl_lookup c (clients w') = None /\
+                st w' = st w /\ (forall y, In y (servers w') -> In y (servers w))
+  end.
+Proof.
+  intros w c x L Hh Np. unfold start_op. destruct (is_waiting w c) eqn:Wt.
+  - apply wake_resolves; assumption.
+  - apply begin_resolves; assumption.
+Qed.
+
 Lemma later_begin : forall w1 ops w2 obs cl x,
-  Forall (fun o => actor o <> None) ops -> run hashf w1 ops = (w2, obs) ->
+  Forall (fun o => is_reload o = false) ops -> run hashf w1 ops = (w2, obs) ->
   cl_lookup cl (clients w2) = Some x -> cheld x = None ->
   existsb (key_eqb (cdb x, cuser x)) (paused w2) = false ->
   match begin_txn (st w1) (cdb x) (cuser x) with
-  | Some p => exists w3 s f, step hashf w2 (OBegin cl) = (w3, ObBegun p s f) /\
+  | Some p => exists w3 s f, step hashf w2 (start_op w2 cl) = (w3, ObBegun p s f) /\
+                cl_lookup cl (clients w3) = Some {| cdb := cdb x; cuser := cuser x; cclone := p; cheld := Some s; ctmo := cidle (config (st w1)) |} /\
                 In {| sid := s; spool := p; sholder := Some cl |} (servers w3)
-  | None => exists w3, step hashf w2 (OBegin cl) = (w3, ObNoPool) /\ cl_lookup cl (clients w3) = None /\
+  | None => exists w3, step hashf w2 (start_op w2 cl) = (w3, ObNoPool) /\ cl_lookup cl (clients w3) = None /\
                 st w3 = st w2 /\ (forall y, In y (servers w3) -> In y (servers w2))
   end.
 Proof.
-  intros w1 ops w2 obs cl x F R L Hh Np. destruct (client_run_store _ _ _ _ R F) as [E _]. rewrite <- E.
-  pose proof (begin_resolves w2 cl x L Hh Np) as B. destruct (begin_txn (st w2) (cdb x) (cuser x)).
-  - destruct B as [w3 [s [f [B1 [_ B3]]]]]. eauto.
-  - exact B.
+  intros w1 ops w2 obs cl x F R L Hh Np. destruct (quiet_run_store _ _ _ _ R F) as [E _]. rewrite <- E.
+  exact (start_resolves w2 cl x L Hh Np).
 Qed.
 
 (** After a reload whose builds all succeed, per (pool, user): what [get_pool] resolves to. *)
@@ -964,10 +1079,10 @@ Qed.
 Lemma removed_pool_error : forall w c bo w1 ops w2 obs cl x,
   winv w -> pinv w -> wf_cfg c ->
   step hashf w (OReload (Valid c bo)) = (w1, ObReload (ROk true)) ->
-  Forall (fun o => actor o <> None) ops -> run hashf w1 ops = (w2, obs) ->
+  Forall (fun o => is_reload o = false) ops -> run hashf w1 ops = (w2, obs) ->
   cl_lookup cl (clients w2) = Some x -> cheld x = None ->
   (match clookup (cdb x) (cpools c) with Some (_, us) => ~ In (cuser x) us | None => True end) ->
-  exists w3, step hashf w2 (OBegin cl) = (w3, ObNoPool) /\ cl_lookup cl (clients w3) = None /\
+  exists w3, step hashf w2 (start_op w2 cl) = (w3, ObNoPool) /\ cl_lookup cl (clients w3) = None /\
              st w3 = st w2 /\ (forall y, In y (servers w3) -> In y (servers w2)).
 Proof.
   intros w c bo w1 ops w2 obs cl x I P W S F R L Hh Rm.
@@ -976,7 +1091,7 @@ Proof.
   { destruct (clookup (cdb x) (cpools c)) as [[pd us]|]; [apply mem_false in Rm; rewrite Rm in CE|]; exact CE. }
   assert (Np : existsb (key_eqb (cdb x, cuser x)) (paused w2) = false).
   { apply pinv_not_paused; [eapply pinv_run; [eapply pinv_step; eauto|eauto]|].
-    destruct (client_run_store _ _ _ _ R F) as [E _]. unfold has_pool. rewrite E. unfold begin_txn in N.
+    destruct (quiet_run_store _ _ _ _ R F) as [E _]. unfold has_pool. rewrite E. unfold begin_txn in N.
     destruct (plookup (cdb x, cuser x) (pools (st w1))) as [[h p]|]; [discriminate|reflexivity]. }
   pose proof (later_begin _ _ _ _ _ _ F R L Hh Np) as LB. rewrite N in LB. exact LB.
 Qed.
@@ -984,21 +1099,22 @@ Qed.
 Lemma changed_in_effect_txn : forall w c bo w1 ops w2 obs cl x pd us,
   winv w -> wf_cfg c ->
   step hashf w (OReload (Valid c bo)) = (w1, ObReload (ROk true)) ->
-  Forall (fun o => actor o <> None) ops -> run hashf w1 ops = (w2, obs) ->
+  Forall (fun o => is_reload o = false) ops -> run hashf w1 ops = (w2, obs) ->
   cl_lookup cl (clients w2) = Some x -> cheld x = None ->
   existsb (key_eqb (cdb x, cuser x)) (paused w2) = false ->
   clookup (cdb x) (cpools c) = Some (pd, us) -> In (cuser x) us ->
-  exists w3 p s f pd', step hashf w2 (OBegin cl) = (w3, ObBegun p s f) /\
+  exists w3 p s f pd' y, step hashf w2 (start_op w2 cl) = (w3, ObBegun p s f) /\
     In {| sid := s; spool := p; sholder := Some cl |} (servers w3) /\
     In (p, ((cdb x, cuser x), pd')) (objs w2) /\ hashf pd' = hashf pd /\
-    (no_reuse (pools (st w)) (cdb x, cuser x) pd -> next_pool w <= p /\ pd' = pd).
+    (no_reuse (pools (st w)) (cdb x, cuser x) pd -> next_pool w <= p /\ pd' = pd) /\
+    cl_lookup cl (clients w3) = Some y /\ cclone y = p /\ ctmo y = cidle c.
 Proof.
   intros w c bo w1 ops w2 obs cl x pd us I W S F R L Hh Np Lc Hu.
-  destruct (changed_in_effect _ _ _ _ I W S) as [_ CE]. specialize (CE (cdb x) (cuser x)).
+  destruct (changed_in_effect _ _ _ _ I W S) as [Ec CE]. specialize (CE (cdb x) (cuser x)).
   pose proof (later_begin _ _ _ _ _ _ F R L Hh Np) as LB. rewrite Lc in CE. apply mem_In in Hu. rewrite Hu in CE.
-  destruct CE as [p [pd' [A [B [C D]]]]]. rewrite A in LB. destruct LB as [w3 [s [f [X Y]]]].
-  destruct (client_run_store _ _ _ _ R F) as [_ [Eo _]].
-  exists w3, p, s, f, pd'. rewrite Eo. auto.
+  destruct CE as [p [pd' [A [B [C D]]]]]. rewrite A in LB. destruct LB as [w3 [s [f [X [Y Z]]]]].
+  destruct (quiet_run_store _ _ _ _ R F) as [_ [Eo _]].
+  eexists w3, p, s, f, pd', _. rewrite Eo. rewrite Ec in Y. repeat split; eauto; try (apply D; assumption).
 Qed.
 
 (** ------------------------------------------------------------------ settings a transaction started with *)
@@ -1043,6 +1159,7 @@ Lemma begin_reads_timeout : forall w c x w' p s f,
 Proof.
   intros w c x w' p s f L S. unfold step in S. cbn [step0] in S. rewrite L in S.
   destruct (cheld x); [inversion S|].
+  destruct (existsb (Nat.eqb c) (waiting w)); [inversion S|].
   destruct (existsb (key_eqb (cdb x, cuser x)) (paused w)); [inversion S|].
   destruct (plookup (cdb x, cuser x) (pools (st w))) as [[h p0]|]; [|inversion S].
   destruct (take_idle p0 c (servers w)) as [[s0 l']|]; inversion S; subst; rewrite gc_clients; cbn [clients];
